@@ -194,6 +194,8 @@ def run(ctx):
                                           "input": {"entry": name.split(":")[0], "params": list(distinct[0]), "other": list(distinct[1])}, "config": {},
                                           "observed": name, "expected": "distinct names",
                                           "explanation": "parameter sets %r and %r share the file %s" % (distinct[0], distinct[1], name)})
+    if tot["runs"] != len(cli) + len(manual) + 3 * len(pairs) and not res.get("skipped_shards") and not tot["violations"]:
+        raise par.HarnessError("C17: %d runs executed, %d planned" % (tot["runs"], len(cli) + len(manual) + 3 * len(pairs)))
     cov = {"states": tot["runs"] + 198, "transitions": tot["runs"] + 198, "traces_validated_against_impl": tot["runs"] + 198,
            "evaluations": tot["runs"] + 198, "distinct_nontrivial": tot["runs"], "cli_runs": len(cli), "manual_runs": len(manual), "ordered_call_pairs_in_one_process": len(pairs),
            "prob_to_str_calls": 198, "distinct_names": len(tot["names"]), "rule": RULE, "exhaustive": not res.get("skipped_shards"),
